@@ -414,7 +414,11 @@ func (b *vBuilder) statement(tag string, depth int, rich bool) (*parser.Statemen
 	if depth <= 0 {
 		nk = 7
 	}
-	switch vChoose(tag+".kind", nk) {
+	kind := vChoose(tag+".kind", nk)
+	if vParam("IFONLY", 0) != 0 {
+		vAssume(kind == 0 || kind >= 8) // deep trees: lines and if chains only (chains nested in the clauses of chains)
+	}
+	switch kind {
 	case 0:
 		lc, ls := b.lineStatement(tag, rich)
 		sc.AddChild(lc)
